@@ -93,8 +93,8 @@ def gen_target(rng, profile):
         if not pre and rng.random() < 0.5:
             pre = rng.choice(["h", "1"])
         return Word(pre, [(n, n, w)], bracket=False)
-    if r < 0.32:
-        return Word((pre or "h") + rng.choice(["", "-ib", "x"]))
+    if r < 0.36:
+        return Word((pre or "h") + rng.choice(["", "-ib", "x", "-ib", "-e"]))
     rs = []
     for _ in range(rng.choice([1, 1, 1, 2, 3])):
         lo = rng.choice([0, 1, 2, 3, 4, 5, 8, 9, 10, 98])
@@ -121,6 +121,8 @@ def gen_exclusion(rng, names, profile):
     dups = [n for n in names if names.count(n) > 1]
     pick = rng.choice(dups) if dups and rng.random() < 0.5 else rng.choice(names)
     nb = numbered(pick)
+    if not nb and r < 0.5 and len(pick) > 1:      # a name without number: its beginning / an extension must not exclude it
+        return pick[:rng.randrange(1, len(pick))] if rng.random() < 0.6 else pick + rng.choice(["x", "-ib", "1"])
     if r < 0.35 or not nb:
         k = rng.choice([1, 1, 2, 3])
         return ",".join(rng.sample(names, min(k, len(names))) if rng.random() < 0.6 else [pick])
